@@ -4,6 +4,10 @@ import json, subprocess
 props=[json.loads(l)['id'] for l in open('/verif/properties.jsonl')]
 fix_commits=subprocess.run(['git','-C','/repo','log','--format=%h %s','--grep=^fix:'],capture_output=True,text=True).stdout.strip().splitlines()
 claimed = {
+ "C09": dict(
+   text="Bounded symbolic model checking of the real gpt.Table.Write and gpt.Read under power loss: the harness writes a concrete old table, lets the real Write of the new table run on a device that records every WriteAt and Sync (epochs), and presents Read with the crash image in which epochs before k are durable, epochs after k are lost and, for every write of epoch k, EVERY subset of its 512-byte sectors may have reached the medium (one solver boolean per sector, so all 2^32 subsets of an entry-array write are decided by one query). CRCs over such images are evaluated exactly (GF(2)-linear CRC32). Asserted: Read succeeds and returns exactly the old or exactly the new table (GUID, indices, start/end, names, types, partition GUIDs), a completed Write reads back as the new table from the primary copy; first write on a blank disk: error or exactly the new table.",
+   note="Bounds: four concrete (old,new) pairs (grow, change of geometry/names/disk GUID, shrink, blank->new) on a 64 KiB disk with 512-byte sectors and protective MBR; crash epoch k case-split over all epochs incl. completion; persistence unit 512 bytes (sector atomicity assumed as in the property); table contents are concrete because the exact CRC needs concrete old/new bytes, the crash dimension is symbolic-exhaustive. Because epochs are derived from the observed Sync calls, dropping or reordering a sync/write changes the explored crash states.",
+   ref="6.C09"),
  "C15": dict(
    text="Bounded symbolic model checking of partition.Read, gpt.Read, mbr.Read and their parsers on arbitrary bytes: (a) Read on devices whose every byte is an uninterpreted function of the offset, for device sizes 0..32 KiB (case-split) incl. truncated ones, (b) a forged primary header with recomputed CRC and arbitrary LBAs/count/entry size, (c) loadEntries with every geometry field symbolic, (d) readPartitionArrayBytes for entry sizes 0,1,127,128,129,256,2^31, (e) partitionFromBytes and readGPTHeader on arbitrary bytes. Obligations: no panic (every bounds/nil/divide/makeslice check is a solver query), every make() <= 2*device size + 4 MiB, symbolic loops <= 38-40 iterations and concrete loops terminate, a table is only returned for CRC-matching bytes and lists no partition from bytes the CRC does not cover.",
    note="Bounds: at most 1 (quick) / 2 (thorough) used entries decoded per array harness (the entry decoder is checked separately for an arbitrary entry, which covers every slot by the slot loop's independence), device sizes and sector sizes case-split, utf16.Decode of symbolic units over-approximated by arbitrary runes, CRC32 congruent UF. Process-level memory caps/deadlines of the property are represented by the allocation and loop obligations.",
